@@ -118,7 +118,9 @@ func Now() time.Time {
 	if !live() {
 		return time.Now()
 	}
-	ex.vnow++
+	if !ex.frozen {
+		ex.vnow++
+	}
 	return vbase.Add(time.Duration(ex.vnow))
 }
 
@@ -145,8 +147,9 @@ func Sleep(d time.Duration) {
 		return
 	}
 	if d <= 0 {
-		Yield()
-		return
+		// a zero sleep only makes sense in a retry loop that waits for the clock to move (sno's
+		// regression branch): under the virtual clock that is a wait for the next advance
+		d = 1
 	}
 	Recv(After(d))
 }
@@ -236,3 +239,29 @@ func PendingTimers() int {
 	}
 	return n
 }
+
+// NewTicker replaces time.NewTicker. Tickers are not modelled: creating one inside an execution
+// is a framework error (the only user is sno's sequence-overflow path, which the harnesses
+// never reach).
+func NewTicker(d time.Duration) *time.Ticker {
+	if live() {
+		panic("verifrt: time.NewTicker under the controlled runtime is not supported")
+	}
+	return time.NewTicker(d)
+}
+
+// SetClock moves the virtual clock to an absolute offset (nanoseconds since the base), also
+// backwards: an environment answer used to explore clock regressions. Timers are not fired.
+func SetClock(ns int64) {
+	g := yield()
+	g.active()
+	ex.vnow = ns
+	g.hash = mix2(g.hash, opTime, uint64(ns))
+	ex.touchG(g)
+}
+
+// FreezeClock makes Now() stop advancing on its own (two consecutive readings are equal).
+func FreezeClock(on bool) { ex.frozen = on }
+
+// ClockNow returns the virtual clock offset.
+func ClockNow() int64 { return ex.vnow }
